@@ -700,6 +700,8 @@ struct World {
     st: ShardedActorState,
     c1: Conn,
     c2: Conn,
+    /// a second foreign connection, opened when a schedule puts two commands into one await slot
+    c3: Option<Conn>,
     twin: ShardedActorState,
     tw: Conn,
     /// frames applied to the twin since its creation (to clone it)
@@ -747,6 +749,7 @@ impl World {
             shards,
             c1: Conn::open_cfg(&st, cfg.clone()),
             c2: Conn::open(&st),
+            c3: None,
             tw: Conn::open(&twin),
             st,
             twin,
@@ -1130,7 +1133,17 @@ impl World {
                 real.push(!matches!(i, Inp::Cmd(Cmd::Ping) | Inp::Local(0..=2)));
             }
         }
+        // two commands in one slot: the second travels on a third connection, which is in lock step
+        // as well (one store access per connection per round, in the order the tasks were woken:
+        // the modelled client, the second connection, the third)
+        let two = sched.iter().any(|s| s.len() > 1);
+        if two && self.c3.is_none() {
+            self.c3 = Some(Conn::open(&self.st));
+            tokio::task::yield_now().await;
+            tokio::task::yield_now().await;
+        }
         let mut pipeline = Vec::new();
+        let mut pipeline3 = Vec::new();
         let mut n_pipe = 0;
         for (i, slot) in sched.iter().enumerate() {
             if i == 0 {
@@ -1142,19 +1155,31 @@ impl World {
                 assert!(slot.is_empty());
                 continue;
             }
-            assert!(slot.len() <= 1);
+            assert!(slot.len() <= 2);
             match slot.first() {
                 Some(c) => pipeline.extend(frame(&c.args())),
                 None => pipeline.extend(frame(&[b("LLEN"), b(FILLER_KEY)])),
+            }
+            match slot.get(1) {
+                Some(c) => pipeline3.extend(frame(&c.args())),
+                None => pipeline3.extend(frame(&[b("LLEN"), b(FILLER_KEY)])),
             }
             n_pipe += 1;
         }
         let inp = Inp::Exec(sched.clone());
         self.c1.write(&frame(&inp.args())).await;
         self.c2.write(&pipeline).await;
+        if two {
+            self.c3.as_mut().expect("third connection").write(&pipeline3).await;
+        }
         let r = self.c1.recv().await;
         for _ in 0..n_pipe {
             self.c2.recv().await;
+        }
+        if two {
+            for _ in 0..n_pipe {
+                self.c3.as_mut().expect("third connection").recv().await;
+            }
         }
         self.in_multi = false;
         let body = std::mem::take(&mut self.body);
@@ -1918,6 +1943,71 @@ enum Step {
     Overflow(Vec<u8>),
 }
 
+/// ALL placements of one and of two foreign commands among the await points of EXEC (before its
+/// first store access, between two consecutive accesses, after the last), for six bodies with two
+/// or three store accesses (watch comparisons included) and every ordered choice of the foreign
+/// commands from three writes that hit the transaction's keys.  `Props/C05Sched.lean`
+/// (`placements_cover`) proves that for these bodies and foreign sequences the placements ARE the
+/// whole schedule space of the model; here each of them is run on the real handler (two commands in
+/// one slot travel on two foreign connections), compared with the model and judged by the oracle.
+async fn schedule_enumeration(out: &mut Out, shards: usize) -> usize {
+    let s = |k: &str, v: &str| Cmd::Set(k.into(), b(v));
+    let bodies: Vec<(&str, Vec<&str>, Vec<Cmd>)> = vec![
+        ("set-get", vec![], vec![s("k", "1"), Cmd::Get("k".into())]),
+        ("watch-get", vec!["k"], vec![Cmd::Get("k".into())]),
+        ("watch-incr-get", vec!["k"], vec![Cmd::Incr("n".into()), Cmd::Get("k".into())]),
+        ("incr-incr-get", vec![], vec![Cmd::Incr("n".into()), Cmd::Incr("n".into()), Cmd::Get("n".into())]),
+        ("watch-list", vec!["l"], vec![Cmd::Rpush("l".into(), vec![b("a")]), Cmd::Llen("l".into())]),
+        ("watch2-set", vec!["k", "n"], vec![s("x", "1")]),
+    ];
+    let foreign = [s("k", "F"), Cmd::Incr("n".into()), Cmd::Rpush("l".into(), vec![b("z")])];
+    let mut seqs: Vec<Vec<Cmd>> = foreign.iter().map(|f| vec![f.clone()]).collect();
+    for a in &foreign {
+        for c in &foreign {
+            seqs.push(vec![a.clone(), c.clone()]);
+        }
+    }
+    let mut count = 0usize;
+    for (label, watch, body) in &bodies {
+        let acc = watch.len() + body.len();
+        for fs in &seqs {
+            let mut pls: Vec<Vec<usize>> = Vec::new();
+            if fs.len() == 1 {
+                pls.extend((0..=acc).map(|i| vec![i]));
+            } else {
+                for i in 0..=acc {
+                    for j in i..=acc {
+                        pls.push(vec![i, j]);
+                    }
+                }
+            }
+            for pl in pls {
+                let mut steps = vec![Step::Other(s("k", "0")), Step::Other(s("n", "5")), Step::Other(Cmd::Rpush("l".into(), vec![b("x")]))];
+                if !watch.is_empty() {
+                    steps.push(Step::In(Inp::Watch(watch.iter().map(|k| k.to_string()).collect())));
+                }
+                steps.push(Step::In(Inp::Multi));
+                for c in body {
+                    steps.push(Step::In(Inp::Cmd(c.clone())));
+                }
+                let mut sched: Vec<Vec<Cmd>> = vec![Vec::new(); acc + 1];
+                for (c, slot) in fs.iter().zip(&pl) {
+                    if *slot == 0 {
+                        steps.push(Step::Other(c.clone()));
+                    } else {
+                        sched[*slot].push(c.clone());
+                    }
+                }
+                steps.push(Step::ConcExec(sched));
+                session_labelled(out, &mut Rng::new(0xC05), Some((shards, steps)), None).await;
+                out.count(&format!("schedule-enumeration:{}shard:{}:k={}", shards, label, fs.len()));
+                count += 1;
+            }
+        }
+    }
+    count
+}
+
 /// fixed corpus: the witnesses of the Lean counterexample theorems, replayed first on every run
 fn corpus() -> Vec<(usize, Vec<Step>)> {
     let mut v = Vec::new();
@@ -2612,6 +2702,23 @@ pub fn run(a: &Args) {
         }
     });
     drop(rt);
+    // every placement of ≤ 2 foreign commands among EXEC's await points, small bodies
+    {
+        let t0 = std::time::Instant::now();
+        let mut n_pl = 0usize;
+        for shards in [1usize, 4] {
+            let rt = tokio::runtime::Builder::new_current_thread().enable_all().build().unwrap();
+            n_pl += rt.block_on(schedule_enumeration(&mut out, shards));
+            drop(rt);
+        }
+        // 2 bodies with 2 accesses: 3·3 + 9·6 = 63 each; 4 bodies with 3 accesses: 3·4 + 9·10 = 102 each
+        let want = 2 * (2 * 63 + 4 * 102);
+        out.extra.insert("schedule_enumeration".into(), json!({"placements_run": n_pl, "expected": want, "bodies": 6, "foreign_commands": 3, "max_foreign_per_exec": 2, "shards": [1, 4], "theorem": "RedisVerif.C05.placements_cover"}));
+        if n_pl != want {
+            out.violation("C05:harness:schedule-enumeration-incomplete", &format!("{} placements run, {} expected", n_pl, want), json!({"run": n_pl, "expected": want}));
+        }
+        eprintln!("schedule enumeration: {} placements in {:?}", n_pl, t0.elapsed());
+    }
     // the decision table of the connection-level machine, extracted from the real handler cell by
     // cell (every reachable state class × every input class, several representatives per class)
     let mut n_cells = 0usize;
